@@ -3,7 +3,6 @@
 From Coq Require Import Permutation.
 From GV Require Import Prelude GeomM GeomP GeomP2 GeomP3.
 Open Scope Z_scope.
-Set Default Timeout 15.
 
 Definition rot (k : nat) (o : list pt) : list pt := skipn k o ++ firstn k o.
 Definition swap_seg (e : seg) : seg := (snd e, fst e).
@@ -82,9 +81,12 @@ Proof.
     rewrite <- pairs_rev, Hr.
     cbn [rev]. rewrite E. rewrite cyc_edges_pairs. cbn [app].
     change (z :: (m ++ [v]) ++ [z]) with ((z :: m ++ [v]) ++ [z]).
-    rewrite <- app_assoc. cbn [app].
-    change (z :: m ++ [v; z]) with ((z :: m) ++ v :: [z]).
-    rewrite pairs_app. cbn [pairs app]. symmetry. apply Permutation_cons_append.
+    replace ((z :: m ++ [v]) ++ [z]) with ((z :: m) ++ v :: [z])
+      by (cbn [app]; rewrite <- app_assoc; reflexivity).
+    rewrite (pairs_app (z :: m) v [z]).
+    change (pairs [v; z]) with [(v, z)].
+    change (pairs (v :: z :: m ++ [v])) with ((v, z) :: pairs (z :: m ++ [v])).
+    cbn [app]. symmetry. apply Permutation_cons_append.
 Qed.
 
 Lemma cyc_edges_reclose o : cyc_edges (reclose o) =
@@ -93,9 +95,9 @@ Proof.
   destruct o as [|v tl]; [reflexivity|]. cbn [reclose].
   rewrite !cyc_edges_pairs. cbn [app].
   change (v :: (tl ++ [v]) ++ [v]) with ((v :: tl ++ [v]) ++ [v]).
-  rewrite <- app_assoc. cbn [app].
-  change (v :: tl ++ [v; v]) with ((v :: tl) ++ v :: [v]).
-  rewrite pairs_app. reflexivity.
+  replace ((v :: tl ++ [v]) ++ [v]) with ((v :: tl) ++ v :: [v])
+    by (cbn [app]; rewrite <- app_assoc; reflexivity).
+  rewrite (pairs_app (v :: tl) v [v]). reflexivity.
 Qed.
 
 (* ------------------------------------------------------------------ the specification is a function of the multiset *)
@@ -306,4 +308,51 @@ Proof.
   intros Hw Hh Hp. apply bool_eq_iff. rewrite !poly_contains_norm; auto.
   - rewrite strict_in_rev. reflexivity.
   - intros v Hv. apply Hw. apply in_rev in Hv. exact Hv.
+Qed.
+
+(* ------------------------------------------------------------------ concrete instances (non-vacuity) *)
+
+Ltac west_ok_tac :=
+  let v := fresh "v" in let Hv := fresh "Hv" in
+  intros v Hv; cbn in Hv; repeat (destruct Hv as [<-|Hv]; [cbn; lia|]); destruct Hv.
+
+Definition ex_diamond : list pt := [(0, 2); (2, 0); (0, -2); (-2, 0)].
+
+Lemma nonvacuous_diamond_centre :
+  west_ok (-360) ex_diamond /\ -360 <= px (0, 0) /\ ~ on_boundary (0, 0) ex_diamond /\
+  evenodd (0, 0) ex_diamond /\ pip (-360) (0, 0) (norm_outline false (reclose ex_diamond)) = true.
+Proof.
+  assert (Hw : west_ok (-360) ex_diamond) by west_ok_tac.
+  assert (Hs : strict_in (0, 0) ex_diamond).
+  { apply (pip_true_iff (-360)); [exact Hw|cbn; lia|vm_compute; reflexivity]. }
+  destruct Hs as [Hb He].
+  split; [exact Hw|]. split; [cbn; lia|]. split; [exact Hb|]. split; [exact He|].
+  vm_compute; reflexivity.
+Qed.
+
+Lemma nonvacuous_boundary :
+  on_boundary (1, 1) ex_diamond /\ on_boundary (2, 0) ex_diamond /\
+  pip (-360) (1, 1) ex_diamond = false /\ pip (-360) (2, 0) ex_diamond = false.
+Proof.
+  split; [apply on_boundary_existsb; vm_compute; reflexivity|].
+  split; [apply on_boundary_existsb; vm_compute; reflexivity|].
+  split; vm_compute; reflexivity.
+Qed.
+
+Lemma nonvacuous_hole :
+  let o := [(0, 0); (16, 0); (16, 16); (0, 16)] in
+  let ho := [(4, 4); (8, 12); (12, 4)] in
+  west_ok (-360) o /\ west_ok (-360) ho /\ strict_in (8, 12) o /\ on_boundary (8, 12) ho /\
+  strict_in (8, 8) ho /\
+  poly_contains (-360) (reclose o) [HPoly (reclose ho)] (8, 12) = true /\
+  poly_contains (-360) (reclose o) [HPoly (reclose ho)] (8, 8) = false.
+Proof.
+  intros o ho.
+  assert (Hw : west_ok (-360) o) by west_ok_tac.
+  assert (Hh : west_ok (-360) ho) by west_ok_tac.
+  split; [exact Hw|]. split; [exact Hh|].
+  split; [apply (pip_true_iff (-360)); [exact Hw|cbn; lia|vm_compute; reflexivity]|].
+  split; [apply on_boundary_existsb; vm_compute; reflexivity|].
+  split; [apply (pip_true_iff (-360)); [exact Hh|cbn; lia|vm_compute; reflexivity]|].
+  split; vm_compute; reflexivity.
 Qed.
